@@ -1,5 +1,6 @@
 import BigtoolsModel.FileOf
 import BigtoolsModel.Codec
+import BigtoolsModel.Compressed
 /-! # C01 — bigWig write/read round trip
 
 Models: `BBI.fileOf` (module `FileOf`) — the byte image the writer lays down for an input: chromosome ids in
@@ -98,5 +99,21 @@ example : ∃ o cs, ValidInput o cs ∧ cs.length = 2 := ⟨o1, cs1, by
                 exact { name := by decide, size := by decide, nonempty := by decide, vals := by decide, sorted := by decide }
             names := by decide, ks := by decide, size := by decide +kernel }
   · rfl⟩
+
+/-- **Compressed files.** zlib enters as a parameter with the single law `inflate (deflate x) = x`. In any image
+    that holds the DEFLATED type-1 sections at the offsets and with the (compressed) sizes its index records, the
+    byte-level reader — R-tree search, then inflating and decoding each candidate block — returns exactly the
+    stored values of the chromosome that overlap the range, clipped, in order. -/
+theorem compressed_file_query_returns_the_stored_values (z : Zlib) (b : Nat) (hb : 2 ≤ b) (hb16 : b < 256 ^ 2)
+    (ds : List DSec) (hne : ds ≠ [])
+    (hsorted : RT.LoSorted (ds.map DSec.sec)) (hok : ∀ d ∈ ds, DSecOK d)
+    (l : List Nat) (hl : l.length < 256 ^ 8)
+    (hsecs : ∀ d ∈ ds, Has l d.off (z.deflate (enc1 d.chrom d.items)) ∧ d.size = (z.deflate (enc1 d.chrom d.items)).length)
+    (Ls : List (List RT.T)) (hLs : levelsOf true b (ds.map DSec.sec) = some Ls) (idx : Nat)
+    (hidx : Has l idx (body b idx Ls)) (c qs qe : Nat) :
+    ∃ fuel blocks, searchCir .little (srcOf l) 24 c qs qe fuel [idx] [] = .ok blocks ∧
+      goBlocksZ z l c qs qe blocks =
+        .ok (((ds.filter fun d => d.chrom = c).flatMap (·.items)).filterMap (keepClip qs qe)) :=
+  wig_query_bytes_compressed z b hb hb16 ds hne hsorted hok l hl hsecs Ls hLs idx hidx c qs qe
 
 end Props.C01
